@@ -123,13 +123,10 @@ func (r *reference) resolveRef(cfg *Config, opts *options) (value, error) {
 		}
 
 		v, err = r.Path.GetValue(cfg, opts)
-		if err == nil {
-			if v == nil {
-				break
-			}
-
+		if err == nil && v != nil {
 			return v, nil
 		}
+		// not set here (or not reachable): try the environments
 
 		if len(env) == 0 {
 			break
